@@ -19,8 +19,12 @@
 (* printed width), numbers are printed back at their own width.            *)
 (* TLC checks `Faithful` = "the variant refines the requirement" over all  *)
 (* collections of <= MaxIds identifiers from Universe.                     *)
-(* In the model int() accepts exactly the non-empty digit strings (the     *)
-(* model alphabet has no sign, blank or underscore-in-suffix).             *)
+(* Variant "isdigit" is keepwidth with the footer test weakened to "only    *)
+(* decimal digits of any script" (isdigit()+int()): EXPECTED TO BE REJECTED *)
+(* - identifiers spelt with non-ASCII digits are renamed to ASCII and may   *)
+(* merge into a range with real identifiers.                                *)
+(* In the model the exact footer test accepts the non-empty ASCII digit     *)
+(* strings; signs, blanks, letters, other scripts' digits are rejected.     *)
 (***************************************************************************)
 EXTENDS OmkmRangeText, TLC
 
@@ -29,7 +33,7 @@ CONSTANTS Heads,      \* texts up to and including the delimiter (<<>> = no deli
           Widths,     \* printed widths: w means "%0wd" (1 = natural)
           Extra,      \* further raw identifier texts (e.g. non-integer suffixes)
           MaxIds,
-          Variant     \* "pad4" | "keepwidth"
+          Variant     \* "pad4" | "keepwidth" | "isdigit"
 
 DELIM == 95
 Universe == {hd \o Pad(n, w) : hd \in Heads, n \in Numbers, w \in Widths} \cup Extra
@@ -42,7 +46,22 @@ Idle == [form |-> "idle"]
 SplitId(v, s) == LET i == LastPos(s, DELIM) IN
    [hd |-> IF v = "pad4" THEN (IF i = 0 THEN <<>> ELSE SubSeq(s, 1, i - 1)) ELSE SubSeq(s, 1, i),
     ft |-> SubSeq(s, i + 1, Len(s))]
-IntOK(ft) == AllDigits(ft) /\ Len(ft) <= 9
+\* Footers.  Identifiers are sequences of CODE POINTS (not bytes): a footer may be spelt with
+\* decimal digits of another script.  python's int() and str.isdigit() accept those, so a
+\* validation by isdigit()+int() reads 'a_' + ARABIC-INDIC THREE as 3 and prints it back as
+\* 'a_3' - a rename.  UDigitVal: value of a Unicode decimal digit of the scripts in the model
+\* alphabet (ASCII, Arabic-Indic U+0660.., Devanagari U+0966.., full-width U+FF10..), else -1
+\* (letters, sign, blank, SUPERSCRIPT TWO U+00B2: isdigit() true but int() fails -> rejected).
+UDigitVal(c) == IF c >= 48 /\ c <= 57 THEN c - 48
+                ELSE IF c >= 1632 /\ c <= 1641 THEN c - 1632
+                ELSE IF c >= 2406 /\ c <= 2415 THEN c - 2406
+                ELSE IF c >= 65296 /\ c <= 65305 THEN c - 65296
+                ELSE -1
+UDigitsToInt(f) == LET g[i \in 0..Len(f)] == IF i = 0 THEN 0 ELSE g[i - 1] * 10 + UDigitVal(f[i]) IN g[Len(f)]
+\* "pad4"/"keepwidth": the footer must be reproduced by printing its value (ASCII digits only);
+\* "isdigit": any run of Unicode decimal digits is taken (EXPECTED TO BE REJECTED)
+IntOK(v, ft) == /\ Len(ft) >= 1 /\ Len(ft) <= 9
+                /\ IF v = "isdigit" THEN \A i \in 1..Len(ft) : UDigitVal(ft[i]) >= 0 ELSE AllDigits(ft)
 Key(v, s) == LET sp == SplitId(v, s) IN IF v = "pad4" THEN <<sp.hd, 0>> ELSE <<sp.hd, Len(sp.ft)>>
 HeadText(v, key) == IF v = "pad4" THEN (IF key[1] = <<>> THEN <<>> ELSE key[1] \o <<DELIM>>) ELSE key[1]
 NumText(v, key, n) == IF v = "pad4" THEN Pad(n, 4) ELSE Pad(n, key[2])
@@ -55,7 +74,7 @@ KeysInOrder(v, s) ==
 \* the footers of one key, sorted ascending, duplicates kept
 Footers(v, s, key) ==
    LET pos == SX!SetToSortSeq({k \in 1..Len(s) : Key(v, s[k]) = key}, LAMBDA a, b : a < b)
-   IN SortSeq([m \in 1..Len(pos) |-> DigitsToInt(SplitId(v, s[pos[m]]).ft)], LAMBDA a, b : a < b)
+   IN SortSeq([m \in 1..Len(pos) |-> UDigitsToInt(SplitId(v, s[pos[m]]).ft)], LAMBDA a, b : a < b)
 \* more_itertools.consecutive_groups on a sorted list: <<lo, hi>> pairs
 Runs(f) ==
    LET starts == SX!SetToSortSeq({1} \cup {i \in 2..Len(f) : f[i] # f[i - 1] + 1}, LAMBDA a, b : a < b)
@@ -67,7 +86,7 @@ EntriesOfKey(v, s, key) ==
       IF r[m][1] = r[m][2] THEN h \o NumText(v, key, r[m][1])
       ELSE h \o NumText(v, key, r[m][1]) \o TO \o h \o NumText(v, key, r[m][2])]
 Compress(v, s) ==
-   IF \E k \in 1..Len(s) : ~IntOK(SplitId(v, s[k]).ft)
+   IF \E k \in 1..Len(s) : ~IntOK(v, SplitId(v, s[k]).ft)
    THEN [raised |-> "ValueError", entries |-> <<>>]
    ELSE LET ks == KeysInOrder(v, s) IN
         [raised |-> "",
